@@ -150,16 +150,17 @@ def udp_histories(ch, hooks):
         scns = hist.build_scenarios(ch, session, scripts, per_scn=6)
         for s in scns:
             s["udp"] = True
-        outs = conn.run_scenarios(scns)
+            s["timeout_ms"] = 250      # real sockets on a shared machine: a genuine reply must never look lost
+        outs = conn.run_scenarios(scns, spread=True)
         hist.replay(ch, scns, outs, hooks, "c10")
     # handshake payloads: a reply lost or undecodable in each exchange, then the genuine one
     scns = []
     su = hist.SUITES[rng.randrange(9)]
     pats = [(ex, fault) for ex in range(3) for fault in (["lost"], ["lost", "lost"], ["garbage"], ["raw:0600"], ["garbage", "lost"], ["lost", "garbage", "garbage"])]
     for ex, fault in (pats if not ch.quick() else rng.sample(pats, 6) + [(0, ["lost"]), (1, ["lost"]), (2, ["lost"])]):
-        scns.append({"bmc": conn.default_bmc(seed=77, suites=[[100, su[0], su[1], su[2]]]), "timeout_ms": 40, "udp": True, "fault": (ex, fault),
+        scns.append({"bmc": conn.default_bmc(seed=77, suites=[[100, su[0], su[1], su[2]]]), "timeout_ms": 250, "udp": True, "fault": (ex, fault),
                      "steps": [hs.open_step(suites=[su], script=["ok"] * ex + fault), {"op": "cmd", "conn": "session", "cmd": {"name": "getdeviceid"}, "script": ["ok"]}]})
-    for scn, out in zip(scns, conn.run_scenarios(scns)):
+    for scn, out in zip(scns, conn.run_scenarios(scns, spread=True)):
         res = out["steps"][0]
         ex, fault = scn["fault"]
         ch.note_case("c10-udp-handshake", "%d|%s" % (ex, fault))
